@@ -190,6 +190,11 @@ def run_replay(path, quiet=False):
                 proc.kill()
             proc.wait()
             return "hang", "timeout"
+        try:
+            # a replay that ends in a sanitizer abort leaves its llvm-symbolizer child behind (own session): reap the group
+            os.killpg(proc.pid, signal.SIGKILL)
+        except OSError:
+            pass
         fo.seek(0)
         fe.seek(0)
         p = types.SimpleNamespace(returncode=rc, stdout=fo.read(), stderr=fe.read())
